@@ -698,6 +698,13 @@ func checkAuthentication(validCredentials []Credentials, expectedRegion string, 
 	contentEncodingHeader := r.Header.Get("Content-Encoding")
 	isAwsChunked := hasAwsChunkedContentEncoding(contentEncodingHeader)
 
+	// url.Values silently drops pairs it cannot parse, so they would not be
+	// covered by the signature although the raw query string is passed on.
+	if _, err := url.ParseQuery(r.URL.RawQuery); err != nil {
+		slog.DebugContext(r.Context(), "Failed to parse signature parameters: malformed query string: "+err.Error())
+		return nil, false
+	}
+
 	parameters, err := parseSignatureParameters(r)
 	if err != nil {
 		slog.DebugContext(r.Context(), "Failed to parse signature parameters: "+err.Error())
